@@ -3,6 +3,9 @@ package whatwgmodel
 import (
 	"encoding/json"
 	"fmt"
+	"go/ast"
+	goparser "go/parser"
+	"go/token"
 	"os"
 	"sort"
 	"strings"
@@ -327,7 +330,7 @@ func TestWPTIdnaTestV2Informational(t *testing.T) {
 		// Does the model handle this host without vnd.DomainToASCII?
 		// (Reconstructs the host buffer the parser would see.)
 		fast := false
-		dom :=[]rune(PercentDecode(v.Input))
+		dom := []rune(PercentDecode(v.Input))
 		if allASCII(dom) && !hasACELabel(dom) {
 			fast = true
 			asciiPathTotal++
@@ -485,10 +488,10 @@ func TestIPv4(t *testing.T) {
 		{"4294967296", true, false, ""},
 		{"0xffffffff", true, true, "255.255.255.255"},
 		{"0x100000000", true, false, ""},
-		{"18446744073709551616", true, false, ""},        // 2^64: must not wrap to 0
-		{"18446744073709551617", true, false, ""},        // 2^64+1: must not wrap to 1
-		{"0x10000000000000001", true, false, ""},         // 2^64+1 in hex
-		{"1.18446744073709551617", true, false, ""},      // wrap would give 1.0.0.1
+		{"18446744073709551616", true, false, ""},   // 2^64: must not wrap to 0
+		{"18446744073709551617", true, false, ""},   // 2^64+1: must not wrap to 1
+		{"0x10000000000000001", true, false, ""},    // 2^64+1 in hex
+		{"1.18446744073709551617", true, false, ""}, // wrap would give 1.0.0.1
 		{"1.2.3.4.5", true, false, ""},
 		{"256.1.1.1", true, false, ""},
 		{"1.1.1.256", true, false, ""},
@@ -746,5 +749,114 @@ func TestParserLoopAtEOF(t *testing.T) {
 	c.SetPathname("/z")
 	if base.Href(false) != "http://h/a/b?q#f" || c.Href(false) != "http://h/z?q#f" {
 		t.Errorf("Clone not deep: %q %q", base.Href(false), c.Href(false))
+	}
+}
+
+// ---- subset lint ------------------------------------------------------------------------
+
+// TestModelStaysInsidePlainSubset enforces, on the model's own source files,
+// the restrictions that make it executable by the symbolic executor: the only
+// import is vnd (and only vnd.DomainToASCII), no maps, interfaces, closures,
+// defer/panic/recover, goroutines/channels, goto/labels, type switches, range
+// loops, package-level variables, floating point or unlisted integer types.
+func TestModelStaysInsidePlainSubset(t *testing.T) {
+	dir := os.Getenv("WHATWGMODEL_SRC")
+	if dir == "" {
+		dir = "/verif/harness/whatwgmodel"
+	}
+	entries, err := os.ReadDir(dir)
+	if err != nil {
+		t.Skipf("model sources not found: %v", err)
+	}
+	forbiddenIdents := map[string]bool{
+		"uint": true, "uint8": true, "int8": true, "int16": true, "int32": true, "int64": true, "uintptr": true,
+		"float32": true, "float64": true, "complex64": true, "complex128": true, "any": true, "error": true,
+		"panic": true, "recover": true, "print": true, "println": true, "min": true, "max": true, "clear": true,
+		"delete": true, "close": true, "complex": true, "real": true, "imag": true,
+	}
+	files := 0
+	for _, e := range entries {
+		name := e.Name()
+		if !strings.HasSuffix(name, ".go") || strings.HasSuffix(name, "_test.go") {
+			continue
+		}
+		files++
+		fset := token.NewFileSet()
+		f, err := goparser.ParseFile(fset, dir+"/"+name, nil, 0)
+		if err != nil {
+			t.Fatalf("%s: %v", name, err)
+		}
+		bad := func(n ast.Node, what string) {
+			t.Errorf("%s: %s", fset.Position(n.Pos()), what)
+		}
+		if f.Name.Name != "whatwgmodel" {
+			bad(f.Name, "package name")
+		}
+		for _, imp := range f.Imports {
+			if imp.Path.Value != `"github.com/nlnwa/whatwg-url/internal/vnd"` {
+				bad(imp, "forbidden import "+imp.Path.Value)
+			}
+		}
+		for _, d := range f.Decls {
+			if g, ok := d.(*ast.GenDecl); ok && g.Tok == token.VAR {
+				bad(g, "package-level variable")
+			}
+		}
+		ast.Inspect(f, func(n ast.Node) bool {
+			switch x := n.(type) {
+			case *ast.MapType:
+				bad(x, "map type")
+			case *ast.InterfaceType:
+				bad(x, "interface type")
+			case *ast.FuncLit:
+				bad(x, "closure")
+			case *ast.FuncType:
+				// func types are only allowed as part of declarations.
+			case *ast.DeferStmt:
+				bad(x, "defer")
+			case *ast.GoStmt:
+				bad(x, "go statement")
+			case *ast.ChanType:
+				bad(x, "channel")
+			case *ast.SelectStmt:
+				bad(x, "select")
+			case *ast.SendStmt:
+				bad(x, "send")
+			case *ast.TypeSwitchStmt:
+				bad(x, "type switch")
+			case *ast.TypeAssertExpr:
+				bad(x, "type assertion")
+			case *ast.LabeledStmt:
+				bad(x, "label")
+			case *ast.RangeStmt:
+				bad(x, "range loop")
+			case *ast.BranchStmt:
+				if x.Tok == token.GOTO || x.Tok == token.FALLTHROUGH || x.Label != nil {
+					bad(x, "goto/fallthrough/labeled branch")
+				}
+			case *ast.BasicLit:
+				if x.Kind == token.FLOAT || x.Kind == token.IMAG {
+					bad(x, "floating point literal")
+				}
+			case *ast.SelectorExpr:
+				if id, ok := x.X.(*ast.Ident); ok && id.Name == "vnd" && x.Sel.Name != "DomainToASCII" {
+					bad(x, "vnd."+x.Sel.Name)
+				}
+			case *ast.Ident:
+				if forbiddenIdents[x.Name] {
+					bad(x, "forbidden identifier "+x.Name)
+				}
+			case *ast.IndexListExpr:
+				bad(x, "generics")
+			case *ast.Field:
+				if ft, ok := x.Type.(*ast.FuncType); ok {
+					bad(ft, "func-typed field or parameter")
+				}
+			}
+			return true
+		})
+	}
+	if files < 5 {
+		t.Errorf("expected at least 5 model source files in %s, found %d", dir, files)
 	}
 }
